@@ -136,6 +136,10 @@ PROPS["C04"] = {
           ["SrtpContext::estimate_roc", "SrtpContext::update"],
           "verbatim estimate_roc/update satisfy est()/upd(); lemma index_tracking: for any arrival sequence with each genuine index within 2^15-1 of the running maximum, every packet is estimated with the sender's ROC (induction over Seq<int>, unbounded)",
           min_verified=9),
+        V("SrtpSession: one context per SSRC and direction, keyed by that direction (Verus)", "srtp_session_tables", "quick", "proof",
+          ["SrtpSession::protect_rtp", "SrtpSession::protect_rtcp", "SrtpSession::unprotect_rtp", "SrtpSession::unprotect_rtcp"],
+          "verbatim session functions over the vstd HashMap/Entry specs, for ANY number of SSRCs: the call uses the context stored under the packet's own SSRC in the table of its own direction; a context it creates is built from that direction's keying material, the session profile and the packet's SSRC and starts at index 0; no other SSRC's context and nothing in the other table changes (frame over the whole map view); SRTCP shorter than 8/14 bytes is rejected with both tables unchanged",
+          min_verified=7),
     ],
 }
 
@@ -216,6 +220,12 @@ PROPS["C05"] = {
           "Err(PacketTooShort), state unchanged", bound="body length 15"),
         K("canary: estimate_roc always returns roc", "canary_estimate_roc_always_roc", "quick", "canary", ["SrtpContext::estimate_roc"],
           "false claim, must FAIL", expect="fail"),
+    ],
+    "verus": [
+        V("SrtpSession: a rejected packet disturbs no SSRC's state (Verus)", "srtp_session_reject", "quick", "proof",
+          ["SrtpSession::unprotect_rtp", "SrtpSession::unprotect_rtcp"],
+          "verbatim session functions over the vstd HashMap/Entry specs, modular over the context-level contract (Err => ROC, s_l, SRTCP index unchanged): if the session returns Err, the packet's SSRC still has its context with the same (ROC, s_l, SRTCP index) (a context created by the rejected packet itself is in the initial state), no other SSRC's context is modified or — up to the 32-context eviction threshold — removed, and the transmit table is untouched; lemma rejected_packet_disturbs_nothing lifts this to every SSRC the session held",
+          min_verified=6),
     ],
 }
 
@@ -495,6 +505,13 @@ PROPS["C07"] = {
            + _c07(["c07_parse_nack_16"], RM, "parse_nack_body", "parse_nack_body")
            + _c07(["c07_walker_psfb_12"], RM, "parse_rtcp_packets", "parse_rtcp_packets walker (1 sub-packet, literal type/length)")]
     ),
+    "verus": [
+        V("RTCP walker and every sub-parser: total for input of ANY length (Verus)", "rtcp_total", "quick", "proof",
+          ["parse_rtcp_packets", "parse_sender_report", "parse_receiver_report", "parse_sdes", "parse_goodbye", "parse_report_block",
+           "parse_rtcp_rtpfb", "parse_rtcp_psfb", "parse_psfb_common", "parse_fir_body", "parse_nack_body", "parse_remb_body", "parse_twcc_body"],
+          "verbatim text of the 13 functions (types and constants copied from the source too): for every byte string (no length bound) every index and slice range is in bounds, no usize/u8 arithmetic or shift overflows, every loop carries a decreases measure (terminates), every call meets its callee's precondition — so the walker returns Ok or Err, never panics, never spins. Precondition: a slice spans at most isize::MAX bytes (Rust's own guarantee)",
+          min_verified=38),
+    ],
 }
 
 # =============================================================================== C01
